@@ -6,7 +6,7 @@ globals().update(
         pid="C12",
         props=["JaqalProofs/Props/C12.lean"],
         targets=["JaqalProofs.Props.C12"],
-        diffs=[("harness.agents.walk_diff", 1500, 10000)],
+        diffs=[("harness.agents.walk_diff", 1500, 10000), ("harness.agents.c12_entry", 2500, 25000)],
         trusted=[
             STD_TRUST,
             "hand-written model JaqalModel/Model/Walk.lean of DiscoverSubcircuits (state current / subcircuits, the entry-trace check at loop exit) over a statement skeleton (gate = prepare | measure | other, block, loop); specification JaqalModel/Model/WalkSpec.lean (`Bracketed`: a left-to-right automaton over the flat token sequence that never looks at addresses)",
